@@ -1656,9 +1656,21 @@ impl<'a> Run<'a> {
             }
             Lie::UncleOtherProposals(x) if !uncles.is_empty() => {
                 let i = pick_idx(x as u32, uncles.len());
+                // the genuine header with another proposals list: replaced by a foreign id, stripped,
+                // one id dropped, one appended, reversed (a form that changes nothing is an honest reply)
+                let mut ids: Vec<packed::ProposalShortId> = uncles[i].data().proposals().into_iter().collect();
+                match x % 5 {
+                    0 => ids = vec![foreign_tx(salt + 2).proposal_short_id()],
+                    1 => ids.clear(),
+                    2 => {
+                        ids.pop();
+                    }
+                    3 => ids.push(foreign_tx(salt + 2).proposal_short_id()),
+                    _ => ids.reverse(),
+                }
                 let p = packed::UncleBlock::new_builder()
                     .header(uncles[i].data().header())
-                    .proposals(vec![foreign_tx(salt + 2).proposal_short_id()])
+                    .proposals(ids)
                     .build();
                 uncles[i] = p.into_view();
             }
